@@ -3255,8 +3255,24 @@ class ISLaEmitter(IslaLanguageListener.IslaLanguageListener):
         assert nonterminal[-1] == ">"
         assert len(nonterminal) > 2
 
+        # Names that must not be used for the variable standing for the nonterminal:
+        # user-chosen names, the name of the constant, generated names, and names
+        # that cannot be parsed back as variables (ISLa keywords, SMT-LIB symbols).
+        reserved_names = (
+            {"forall", "exists", "int", "in", "not", "and", "or", "xor", "implies"}
+            | {"iff", "const", "true", "false"}
+            | (
+                {nonterminal[1:-1]}
+                if ISLaEmitter.is_protected_smtlib_keyword(nonterminal[1:-1])
+                else set()
+            )
+        )
         fresh_var = fresh_bound_variable(
-            self.used_variables | self.vars_for_free_nonterminals,
+            self.used_variables
+            | {self.constant.name}
+            | reserved_names
+            | {var.name for var in self.vars_for_free_nonterminals.values()}
+            | {var.name for var in self.vars_for_xpath_expressions.values()},
             BoundVariable(nonterminal[1:-1], nonterminal),
             add=False,
         )
